@@ -383,3 +383,22 @@ Proof.
     destruct (parse_fields_at _ 0%nat toks kw NDts HP (4 + k)%nat n ty Hts) as [tk [v' [A [B C]]]].
     rewrite Nat.add_0_l in A. rewrite A, B. rewrite K in C. inversion C. reflexivity.
 Qed.
+
+(* with an order line for a line type the declaration order is irrelevant:
+   the types dict is computed from the order line alone *)
+Lemma order_line_overrides_declarations c st st' t o :
+  hs_order st = hs_order st' -> zdict_get t (hs_order st) = Some o ->
+  types_for c st t = types_for c st' t.
+Proof. intros E H. unfold types_for. rewrite <- E, H. reflexivity. Qed.
+
+(* an unrequested column (a name that is no attribute of the class) is skipped
+   and shifts nothing: the requested extra is still read from its own column *)
+Example skipped_column_example :
+  let beta := [98; 101; 116; 97] in let zz := [122; 122] in
+  let c := mkcfg (mkcls [(beta, TFlt)] [mkx beta [46; 50; 102] []]) (mkcls [] []) (mkcls [] []) [48; 46; 50; 46; 48] in
+  let toks := [tn 0; ti 1 10 2; ti 3 20 4; tn 5; tn 6; tf 7 8] in
+  wf_columns c cH [zz; beta] = true
+  /\ from_spec c cH (field_types (base_types c cH) [zz; beta]) toks
+     = Ok [VStr 0; VInt 10; VInt 20; VStr 5; VFlt 8]
+  /\ expected_vals c cH [zz; beta] toks = Ok [VStr 0; VInt 10; VInt 20; VStr 5; VFlt 8].
+Proof. vm_compute. repeat split. Qed.
